@@ -139,10 +139,10 @@ def _is_multicol(g):
     return T.same(c[2], s - const(1)) or T.same(c[2], const(1) - s)
 
 
-def _holds_for_2d(g):
+def _holds_for_2d(g, ndim=2):
     """A side condition of the univariate guard that is true of every validated (2-D) batch: a comparison of
     len(<X>.shape) / <X>.ndim with constants, decided by folding with the value 2."""
-    def f(z):
+    def f(z, const=lambda v: T.const(ndim)):
         if z[0] == "call" and z[1] == "len" and len(z[2]) == 1:
             if all((b.single_atom() or ("",))[0] == "getattr" and b.single_atom()[2] == "shape" or
                    ((b.single_atom() or ("",))[0] == "call" and b.single_atom()[1] == "numpy.shape") for _c, b in q.ite_leaves(z[2][0])):
@@ -385,6 +385,9 @@ def univariate(ctx, cname):
         for e in rs[:1]:
             side = [x for g in guards(e) for x in q.conjuncts(g) if not _is_multicol(x)]
             bad = [x for x in side if not _holds_for_2d(x)]
+            # when the guard looks at the caller's raw argument (before validation) a 1-D input must not reach shape[1]
+            raw = [x for x in side if T.mentions(x, lambda z: z[0] == "call" and z[1] == "numpy.shape" and z[2] and z[2][0] == P("X"))]
+            bad += [x for x in raw if _holds_for_2d(x, 1)]
             ctx.ob("GRD", site, "the univariate guard depends on the column count only", not bad,
                    "further condition(s) on the rejection that a validated 2-D batch need not satisfy: %s" % "; ".join(q.short(x, 80) for x in bad[:2]), e)
         tot = q.counters(ctx.prog, ctx.prog.cls(cname))[0]
